@@ -373,12 +373,90 @@ def deprecated(ctx, w):
         ctx.violation({'family': 'run_auth_script', 'clause': 'verdict'}, f'{wb.hex()}: reference {want}, got {got}')
 
 
+# ---------------------------------------------------------------- call histories through the default arguments
+def _hist_alphabet():
+    from ref.optable import op, push
+    P = lambda b: push(b)
+    blk = lambda b: len(b).to_bytes(2, 'big') + b
+    wk = op('TRUE') + op('WRITE_CACHE') + b'\x01k\x01'
+    first = {
+        'writes cache key k': [wk + op('TRUE')],
+        'writes k then fails': [wk + op('FALSE') + op('VERIFY')],
+        'defines function 0': [op('DEF') + b'\x00' + blk(op('TRUE')) + op('TRUE')],
+        'leaves an error record': [op('TRY_EXCEPT') + blk(op('FALSE') + op('VERIFY')) + blk(b'') + op('TRUE')],
+        'unsets flag 1 and returns': [op('UNSET_FLAG') + b'\x01\x01' + op('TRUE') + op('RETURN')],
+        'two scripts sharing k': [wk, op('READ_CACHE') + b'\x01k'],
+        'leaves two items': [op('TRUE') + op('TRUE')],
+    }
+    second = {
+        'lock reads k': [op('TRUE') + op('POP0'), op('READ_CACHE') + b'\x01k'],
+        'lock counts k': [P(b'w') + op('POP0'), op('READ_CACHE_SIZE') + b'\x01k' + P(b'\x01') + op('EQUAL')],
+        'lock calls function 0': [op('TRUE') + op('POP0'), op('CALL') + b'\x00'],
+        'lock reads the error record': [op('TRUE') + op('POP0'), op('READ_CACHE_SIZE') + b'\x01E' + P(b'\x00') + op('EQUAL') + op('NOT')],
+        'lock derives a scalar and looks for x': [P(b'\x11' * 32) + op('DERIVE_SCALAR') + op('POP0'),
+                                                   op('READ_CACHE_SIZE') + b'\x01x' + P(b'\x01') + op('EQUAL')],
+        'plain true': [op('TRUE')],
+        'size of timestamp entry': [op('TRUE') + op('POP0'), op('READ_CACHE_SIZE') + b'\x01k' + P(b'\x00') + op('EQUAL')],
+    }
+    return first, second
+
+
+HIST_FORMS = ('default arguments', 'one empty dict passed to both calls', 'run_script default then run_auth_scripts default',
+              'second call twice')
+
+
+def call_history(ctx, case):
+    """two calls in one process without a cache argument (or with one reused empty dict): the second verdict is the one the
+    second call has on its own"""
+    fname, sname, form = case
+    first, second = _hist_alphabet()
+    a, b = first[fname], second[sname]
+    want, _ = ref_auth(b)
+    shared = {}
+    try:
+        if form == 'default arguments':
+            try:
+                F.run_auth_scripts(list(a))
+            except BaseException:
+                pass
+            v = F.run_auth_scripts(list(b))
+        elif form == 'one empty dict passed to both calls':
+            try:
+                F.run_auth_scripts(list(a), shared)
+            except BaseException:
+                pass
+            v = F.run_auth_scripts(list(b), shared)
+        elif form == 'run_script default then run_auth_scripts default':
+            try:
+                F.run_script(b''.join(a))
+            except BaseException:
+                pass
+            v = F.run_auth_scripts(list(b))
+        else:
+            F.run_auth_scripts(list(b))
+            v = F.run_auth_scripts(list(b))
+    except BaseException as e:
+        v = e
+    ctx.ran(3)
+    ctx.trans(2)
+    ctx.state(('hist', fname, sname, form))
+    ctx.outcome('history:%s' % (v if type(v) is bool else 'raised'))
+    if type(want) is bool and v is not want:
+        ctx.violation({'space': 'call histories', 'clause': 'the verdict does not depend on earlier calls', 'form': form},
+                      f'first call: {fname}; second call: {sname}: verdict {v!r}, on its own {want}')
+    if shared:
+        ctx.violation({'space': 'call histories', 'clause': 'the caller\'s cache dict is left as it was', 'form': form},
+                      f'first call: {fname}; second call: {sname}: the empty dict passed in now holds {sorted(map(repr, shared))}')
+
+
 def blocks(tier, seed):
     q = tier == 'quick'
     wn = 2 if q else 3
     small = list(spaces.progs_upto(1, 'wit'))
     nmal = 2 if q else 3
     bl = [
+        Block('call_histories_default_arguments', [(f, s_, fm) for f in _hist_alphabet()[0] for s_ in _hist_alphabet()[1] for fm in HIST_FORMS],
+              call_history, 'two calls in one process x 7 first calls x 7 second calls x 4 ways of not passing a cache', nshards=16),
         Block('malformed_scripts', lambda s, n: spaces.malformed(nmal, 'full', s, n), malformed_scripts,
               'every byte-prefix and single-byte perturbation of every full-grammar program with <= %d nodes, alone / as lock / as witness' % nmal,
               nshards=64 if q else 256),
